@@ -88,6 +88,12 @@ def stepOk (E : Env Float) (s t : Splat Float) : Bool :=
   && sclOk s.sx t.sx && sclOk s.sy t.sy && sclOk s.sz t.sz
   && colOk s.cx t.cx && colOk s.cy t.cy && colOk s.cz t.cz
   && fle ((sig t.op - alphaStored E s.op).abs) (1.0 / 255.0 + eps)
+  && (let b := (alphaByte E s.op).toNat
+      -- splat_opacity_step_logit: logit(b/255) ≤ o < logit((b+1)/255) where that is finite
+      if 1 ≤ b && b ≤ 253 then
+        let nxt := (Float.ofNat (b + 1)) / 255.0
+        fle (t.op - eps) s.op && fle s.op (Float.log (nxt / (1.0 - nxt)) + eps)
+      else true)
   && rotOk s.r0 t.r0 && rotOk s.r1 t.r1 && rotOk s.r2 t.r2 && rotOk s.r3 t.r3
 
 
